@@ -753,6 +753,12 @@ def run(ctx):
     for bad, c, r in oracle_fail[:3]:
         ctx.violation(bad, {"kind": "oracle", "case": c, "impl": _short(r)}, True)
     broken = disagree + script_fail
+    # readline and flush are exercised behaviourally (histories, do_readline on real bytes): an own definition that
+    # behaves like io's is a rewrite, reported as a note; the other names are not exercised and fail closed
+    soft = [x for x in structural if " define readline " in x or " define flush " in x]
+    if soft and not oracle_fail and not broken:
+        ctx.note("structural assumption changed, behaviour still agrees with the model: " + "; ".join(soft))
+        structural = [x for x in structural if x not in soft]
     if structural and not oracle_fail and not broken:
         hit = search_failing(ctx, 400 if quick else 3000)
         if hit:
